@@ -141,6 +141,14 @@ def main():
             ck.violation("pattern index run failed: impl=%s model=%s" % (canon(a)[:200], canon(b)[:200]), {"case": c, "impl": a, "model": b}, tag="pidx"); continue
         for k, (x, y) in enumerate(zip(oa, ob)):
             lr.stats["pidx_ops"] += 1
+            must = y.pop("must", None); y.pop("evok", None)
+            if must and "ok" in x:
+                lr.stats["pidx_index_complete_checked"] += 1
+                missing = [i for i in must if i not in x["ok"]]
+                if missing:
+                    ck.violation("core.PatternIndex skipped rule ids %s whose (IdxOK) pattern matches the (EvOK) event %s — theorem index_complete does not hold of the code" % (missing, canon(c["ops"][k]["m"])[:200]),
+                                 {"case": {"kind": "pidx", "ops": c["ops"][: k + 1]}, "impl": x, "must": must}, tag="pidxspec")
+                    break
             if canon(x) != canon(y):
                 # a pattern or event the index rejects half-way leaves the Go trie partially extended exactly like the model; anything else is a broken tie
                 nbad += 1
